@@ -62,6 +62,11 @@ def templates(tier="quick"):
     st = [Stmt("r", ex=["s"], restat=True, prints=P("line", "r")), Stmt("a", ex=["r"], prints=P("line", "a")),
           Stmt("b", ex=["a"], prints=P("multi", "b")), Stmt("x", ex=["t"], prints=P("line", "x"))]
     add("restat_prune", Variant("v0", st), js=(1, 2))
+    # ... and with phony aliases of the pruned outputs among the requested targets
+    st = [Stmt("r", ex=["s"], restat=True, prints=P("line", "r")), Stmt("a", ex=["r"], prints=P("line", "a")),
+          Stmt("ra", ex=["r"], phony=True), Stmt("aa", ex=["a", "ra"], phony=True),
+          Stmt("x", ex=["t"], prints=P("line", "x")), Stmt("y", ex=["x"], prints=P("line", "y"))]
+    add("restat_prune_phony", Variant("v0", st, defaults=["aa", "y"]), js=(1, 2))
     # console pool with ordinary commands finishing meanwhile
     st = [Stmt("c1", ex=["s"], pool="console", prints=P("multi", "c1")), Stmt("n1", ex=["s"], prints=P("line", "n1")),
           Stmt("n2", ex=["t"], prints=P("nonl", "n2")), Stmt("c2", ex=["t"], pool="console", prints=P("line", "c2")),
